@@ -16,22 +16,64 @@ def sh(*a, **k):
     return subprocess.run(a, capture_output=True, text=True, **k)
 
 
+def isolated(a, d, meta, props, patch):
+    """Same as the normal flow, but on a scratch worktree of /repo HEAD and a copy of the harness whose
+    replace directive points at it; evidence and replays go to the scratch directory. /repo is not touched."""
+    import shutil, re
+    base = f"/tmp/seedrun/{a.sid}"
+    shutil.rmtree(base, ignore_errors=True)
+    os.makedirs(base)
+    wt = os.path.join(base, "repo")
+    sh("git", "-C", REPO, "worktree", "prune")
+    r = sh("git", "-C", REPO, "worktree", "add", "-q", "--detach", wt, "HEAD")
+    results = {}
+    try:
+        r = sh("git", "-C", wt, "apply", "--whitespace=nowarn", patch)
+        if r.returncode != 0:
+            print("patch does not apply:", r.stderr)
+            sys.exit(2)
+        h = os.path.join(base, "harness")
+        shutil.copytree(os.path.join(VERIF, "harness"), h)
+        gm = open(os.path.join(h, "go.mod")).read()
+        open(os.path.join(h, "go.mod"), "w").write(re.sub(r"=> /repo\b", f"=> {wt}", gm))
+        env = dict(os.environ, VERIF_SEED=a.seed, VERIF_REPO=wt, VERIF_HARNESS=h, VERIF_BUILD=os.path.join(base, "build"),
+                   VERIF_EVIDENCE_DIR=os.path.join(base, "evidence"), VERIF_REPLAY_DIR=os.path.join(base, "replays"))
+        for p in props:
+            t0 = time.time()
+            r = sh(os.path.join(VERIF, "run"), p, "--tier", a.tier, env=env)
+            first = next((l for l in r.stdout.splitlines() if l.startswith(("VIOLATION", "OK", "INFRA"))), r.stdout[:200])
+            detail = next((l for l in r.stdout.splitlines() if l.startswith("  check=")), "")
+            results[p] = {"exit": r.returncode, "wall_s": round(time.time() - t0, 1), "line": first, "detail": detail[:400]}
+            print(f"{a.sid} {p} exit={r.returncode} {time.time()-t0:.1f}s {first}\n   {detail[:300]}")
+    finally:
+        sh("git", "-C", REPO, "worktree", "remove", "--force", wt)
+        shutil.rmtree(base, ignore_errors=True)
+    out = {"seed": a.sid, "tier": a.tier, "verif_seed": a.seed, "isolated": True, "results": results,
+           "detected": any(v["exit"] == 1 for v in results.values())}
+    with open(os.path.join(d, f"result.{a.tier}.json"), "w") as f:
+        json.dump(out, f, indent=1)
+    sys.exit(0 if out["detected"] else 1)
+
+
 def main():
     ap = argparse.ArgumentParser()
     ap.add_argument("sid")
     ap.add_argument("--tier", default="quick")
     ap.add_argument("--props")
     ap.add_argument("--seed", default="1")
+    ap.add_argument("--isolated", action="store_true", help="use a scratch worktree and harness copy instead of /repo")
     a = ap.parse_args()
     d = os.path.join(VERIF, "seeded", a.sid)
     meta = {}
     if os.path.exists(os.path.join(d, "meta.json")):
         meta = json.load(open(os.path.join(d, "meta.json")))
     props = a.props.split(",") if a.props else meta.get("detect_with") or [meta.get("property")]
+    patch = os.path.join(d, "patch.diff")
+    if a.isolated:
+        return isolated(a, d, meta, props, patch)
     if sh("git", "-C", REPO, "status", "--porcelain").stdout.strip():
         print("refusing: /repo is not clean")
         sys.exit(2)
-    patch = os.path.join(d, "patch.diff")
     r = sh("git", "-C", REPO, "apply", "--whitespace=nowarn", patch)
     if r.returncode != 0:
         print("patch does not apply:", r.stderr)
